@@ -484,3 +484,111 @@ def probe_fixwindow(spec):
     except Exception as e:
         o['fixed3_error'] = repr(e)[:300]
     return o
+
+
+# ------------------------------------------------------------------ C17: stochastic and robust problems
+def probe_slp(spec):
+    from eaopack.stoch_lin_prog import make_slp
+    import copy as _copy
+    o = {}
+    so = spec['opts']['slp']
+    try:
+        portf = mk_portfolio(spec)
+        tg = mk_grid(spec['grid'])
+        prices = mk_prices(spec)
+        op = portf.setup_optim_problem(prices, tg)
+    except Exception as e:
+        return {'status': 'setup_error', 'error': repr(e)[:300]}
+    T = tg.T
+    kf = max(1, min(T - 1, int(so['kf'])))          # first future step
+    start_future = tg.timepoints[kf]
+    rs = np.random.RandomState(seed_of(spec, 'slp'))
+    samples = []
+    for s in range(int(so['n'])):
+        d = {}
+        for k, v in prices.items():
+            w = v.copy()
+            if k.startswith('p') and not so.get('identical'):
+                w[kf:] = np.round((w[kf:] * rs.choice([0.5, 0.75, 1.25, 1.5, 2.0]) + rs.randint(-8, 9, size=T - kf) / 4.0) * 8) / 8.0
+            d[k] = w
+        samples.append(d)
+    o['status'] = 'ok'
+    o['T'] = int(T)
+    o['kf'] = kf
+    o['base'] = dump_problem(op)
+    mp = op.mapping
+    first = mp[~mp.index.duplicated(keep='first')]
+    o['future'] = [bool(v) for v in (first['time_step'] >= kf).values] if len(first) == len(op.c) else None
+    scen = [prices] + samples
+
+    def solve(p):
+        r = p.optimize()
+        return r
+
+    # per-scenario problems and optima
+    o['scen'] = []
+    xs = []
+    for pr in scen:
+        try:
+            pf = mk_portfolio(spec)
+            opi = pf.setup_optim_problem(pr, mk_grid(spec['grid']))
+            r = solve(opi)
+            if isinstance(r, str):
+                o['scen'].append({'solve': r}); xs.append(None)
+            else:
+                o['scen'].append({'solve': 'optimal', 'value': float(r.value), 'c': [float(v) for v in opi.c]}); xs.append(np.asarray(r.x))
+        except Exception as e:
+            o['scen'].append({'solve': 'crash', 'error': repr(e)[:200]}); xs.append(None)
+    # the two-stage problem
+    try:
+        pf = mk_portfolio(spec)
+        tg2 = mk_grid(spec['grid'])
+        op2 = pf.setup_optim_problem(mk_prices(spec), tg2)
+        cs = pf.create_cost_samples(price_samples=samples, timegrid=tg2)
+        o['cost_samples'] = [[float(v) for v in c] for c in cs]
+        slp = make_slp(op2, pf, tg2, start_future, samples)
+        o['slp'] = {'c': [float(v) for v in slp.c], 'l': [float(v) for v in slp.l], 'u': [float(v) for v in slp.u],
+                    'rows': dump_rows(slp.A), 'b': [float(v) for v in slp.b], 'cType': str(slp.cType), 'ncols': int(slp.A.shape[1])}
+        r = solve(slp)
+        o['slp']['solve'] = r if isinstance(r, str) else 'optimal'
+        if not isinstance(r, str):
+            o['slp']['value'] = float(r.value)
+            o['slp']['x'] = [float(v) for v in r.x]
+    except Exception as e:
+        o['slp_error'] = repr(e)[:300]
+    # expected value of fixing the present to scenario k's solution (recourse re-optimised in every scenario)
+    o['fixed'] = []
+    for k, xk in enumerate(xs):
+        if xk is None or k >= 3:
+            continue
+        vals = []
+        for pr in scen:
+            try:
+                pf = mk_portfolio(spec)
+                tgf = mk_grid(spec['grid'])
+                fw = {'I': np.arange(T) < kf, 'x': xk.copy()}
+                opf = pf.setup_optim_problem(pr, tgf, fix_time_window=fw)
+                r = solve(opf)
+                vals.append(None if isinstance(r, str) else float(r.value))
+            except Exception as e:
+                vals.append(None)
+        o['fixed'].append({'k': k, 'values': vals})
+    # robust target over the samples
+    try:
+        pf = mk_portfolio(spec)
+        tgr = mk_grid(spec['grid'])
+        opr = pf.setup_optim_problem(mk_prices(spec), tgr)
+        if so.get('robust_without_grid'):
+            csr = pf.create_cost_samples(price_samples=samples)      # the grid was set by the set-up above
+        else:
+            csr = pf.create_cost_samples(price_samples=samples, timegrid=tgr)
+        r = opr.optimize(target='robust', samples=csr)
+        o['robust'] = {'solve': r if isinstance(r, str) else 'optimal'}
+        if not isinstance(r, str):
+            o['robust']['x'] = [float(v) for v in r.x]
+            o['robust']['value'] = float(r.value)
+        o['robust']['cost_samples'] = [[float(v) for v in c] for c in csr]
+    except Exception as e:
+        o['robust'] = {'solve': 'crash', 'error': repr(e)[:300]}
+    o['xs'] = [None if x is None else [float(v) for v in x] for x in xs]
+    return o
